@@ -21,7 +21,7 @@ def reference(mode):
 
 def _reference(mode):
     from props import models as M
-    if mode in ("export", "export8", "export_over"):
+    if mode in ("export", "export8", "export_over", "export_direct"):
         import importlib.util
         spec = importlib.util.spec_from_file_location("w", os.path.join(os.path.dirname(__file__), "pt_writer.py"))
         src = open(spec.origin).read()
